@@ -16,19 +16,25 @@ Inductive pitem :=
 Definition after (cur finish : N) (st : list (N * bytes)) : list (N * bytes) :=
   filter (fun kv => (cur <? fst kv) && (fst kv <=? finish)) st.
 
-(* retrans_callback for the records, n = next_send when the request arrived (it does not move during
-   the loop), b = BeginSeqNo, last = rctx._last *)
-Definition gap_before (n b last k : N) : list pitem :=
+(* retrans_callback for the records (since /repo 930506b), b = BeginSeqNo, last = rctx._last: a gap in
+   front of the record k is announced with the FIRST number of the gap as MsgSeqNum *)
+Definition gap_before (b last k : N) : list pitem :=
   if negb (last =? 0)
-  then (if last + 1 <? k then [PGap n k] else [])        (* scenario #2: MsgSeqNum = next_send *)
-  else (if b <? k then [PGap n k] else []).              (* scenario #3: MsgSeqNum = next_send *)
+  then (if last + 1 <? k then [PGap (last + 1) k] else [])   (* scenario #2 *)
+  else (if b <? k then [PGap b k] else []).                  (* scenario #3 *)
 
-Fixpoint plan_loop (n b last : N) (recs : list (N * bytes)) : list pitem * N :=
+(* the callback before 930506b (Session.retrans_record_orig, F22): MsgSeqNum = n, the current next_send *)
+Definition gap_before_orig (n b last k : N) : list pitem :=
+  if negb (last =? 0)
+  then (if last + 1 <? k then [PGap n k] else [])
+  else (if b <? k then [PGap n k] else []).
+
+Fixpoint plan_loop (b last : N) (recs : list (N * bytes)) : list pitem * N :=
   match recs with
   | [] => ([], last)
   | (k, raw) :: r =>
-    let '(items, last') := plan_loop n b k r in
-    ((gap_before n b last k ++ PMsg k raw :: items)%list, last')
+    let '(items, last') := plan_loop b k r in
+    ((gap_before b last k ++ PMsg k raw :: items)%list, last')
   end.
 
 (* the final callback (no_more_records): scenarios #4/#5 (nothing was resent) and #1/#6 *)
@@ -42,7 +48,7 @@ Definition finish_of (st : list (N * bytes)) (e : N) : N := if e =? 0 then store
 
 (* with a persister attached *)
 Definition plan (st : list (N * bytes)) (n b e : N) : list pitem * N :=
-  let '(items, last) := plan_loop n b 0 (after (b - 1) (finish_of st e) st) in
+  let '(items, last) := plan_loop b 0 (after (b - 1) (finish_of st e) st) in
   let '(g, nseq) := plan_final n b last in
   ((items ++ [g])%list, nseq).
 
@@ -146,16 +152,8 @@ Definition record_ok (decode : bytes -> decode_result) (kv : N * bytes) : bool :
   | DecExc _ _ => false
   end.
 
-(* ---- boolean hypotheses of the oracle-level theorem (their negations are the suite's classifiers) ---------- *)
-Fixpoint contig (from : N) (recs : list (N * bytes)) : bool :=
-  match recs with
-  | [] => true
-  | (k, _) :: r => (k =? from) && contig (from + 1) r
-  end.
-(* the stored numbers inside [Begin, finish] are Begin, Begin+1, ...: no number without a stored message
-   is followed by a stored one (retrans_callback scenarios #2/#3 do not occur) *)
-Definition no_gap_before_stored (st : list (N * bytes)) (b e : N) : bool :=
-  contig b (after (b - 1) (finish_of st e) st).
+(* ---- boolean hypotheses of the oracle-level theorem (the negation of nothing_stored_beyond is the classifier
+   of the known finding) ---------- *)
 (* End = 0, or no stored message has a number in (End, next_send) *)
 Definition nothing_stored_beyond (st : list (N * bytes)) (n e : N) : bool :=
   (e =? 0) || forallb (fun kv => negb ((e <? fst kv) && (fst kv <? n))) st.
